@@ -1103,7 +1103,7 @@ pub const VARIANTS: &[Variant] = &[
   Variant { chain: "regtest", base: 108, jubilee: 110 },
 ];
 
-pub fn exec(w: &mut Worker, cfg: &IndexCfg, layout: &Layout, jubilee: u32, choices: &Choices) -> Exec {
+pub fn exec(w: &mut Worker, cfg: &IndexCfg, layout: &Layout, jubilee: u32, choices: &Choices, events: bool) -> Exec {
   let mut e = Exec::default();
   let Some((blocks, rendered)) = build_history(w, layout, choices, 0) else {
     e.disabled = true;
@@ -1123,13 +1123,16 @@ pub fn exec(w: &mut Worker, cfg: &IndexCfg, layout: &Layout, jubilee: u32, choic
       return e;
     }
   };
-  let index = match idx::open(&w.world, &dir, cfg) {
+  let (tx, mut rx) = tokio::sync::mpsc::channel(1 << 16);
+  let opened = if events { idx::open_with_events(&w.world, &dir, cfg, tx) } else { idx::open(&w.world, &dir, cfg) };
+  let index = match opened {
     Ok(i) => i,
     Err(err) => {
       e.fail("C16", "open/error", format!("Index::open failed: {err:#}"));
       return e;
     }
   };
+  let mut fold = super::events::EventFold::default();
   let mut feats: BTreeSet<&'static str> = BTreeSet::new();
   for txs in blocks {
     w.world.push_block(txs);
@@ -1153,7 +1156,17 @@ pub fn exec(w: &mut Worker, cfg: &IndexCfg, layout: &Layout, jubilee: u32, choic
       blocks: &w.world.blocks,
     };
     match util::catch(|| audit(&index, &sats, &insc, &ax, &mut e, &mut feats)) {
-      Ok(Some((hash, _))) => e.states.push(hash),
+      Ok(Some((hash, obs))) => {
+        e.states.push(hash);
+        if events {
+          let evs = super::events::drain(&mut rx);
+          if evs.iter().any(|ev| matches!(ev, ord::index::event::Event::InscriptionTransferred { .. })) {
+            feats.insert("event:transferred");
+          }
+          fold.apply_block(&block, w.world.height(), evs);
+          fold.compare(&index, &obs, &mut e);
+        }
+      }
       Ok(None) => {}
       Err(p) => e.fail("C16", "query/panic", format!("an index query panicked during the audit: {p}")),
     }
@@ -1184,8 +1197,9 @@ pub fn layout_for(ctx: &Ctx, k: usize) -> Layout {
 
 pub fn run(ctx: &Ctx, property: &'static str) -> Report {
   let mut report = Report::new(property, &ctx.tier, "model_checking");
+  let events = property == "C37";
   let cfg = IndexCfg {
-    runes: false,
+    runes: events,
     ..IndexCfg::all()
   };
 
@@ -1198,7 +1212,7 @@ pub fn run(ctx: &Ctx, property: &'static str) -> Report {
     let shapes = r["shapes"].as_u64().unwrap_or(COINBASE_SHAPES.len() as u64) as usize;
     let layout = Layout { l: 2, slots: 2, templates, shapes };
     let mut w = Worker::new(0, "regtest", base);
-    let e = exec(&mut w, &cfg, &layout, 110, &choices);
+    let e = exec(&mut w, &cfg, &layout, 110, &choices, events);
     println!("replay history: {}", e.rendered);
     for (p, c, what) in &e.violations {
       println!("  [{p}] {c}: {what}");
@@ -1232,7 +1246,7 @@ pub fn run(ctx: &Ctx, property: &'static str) -> Report {
         budget_secs: budget_total / (VARIANTS.len() as u64 * stages.len() as u64),
       };
       let mut sub = Report::new(property, &ctx.tier, "model_checking");
-      let totals: Totals = run_histories(&spec, &mut sub, |id| Worker::new(id, v.chain, v.base), |w, c| exec(w, &cfg, &layout, v.jubilee, c));
+      let totals: Totals = run_histories(&spec, &mut sub, |id| Worker::new(id, v.chain, v.base), |w, c| exec(w, &cfg, &layout, v.jubilee, c, events));
       // carry replay parameters
       for mut viol in sub.violations.drain(..) {
         viol.replay["base"] = json!(v.base);
